@@ -73,11 +73,26 @@ def braced_twin(prog):
     return '{ ' + rend(parse(0, 0)[0]) + ' }\n'
 
 
+def spaces_outside_strings(t):
+    pos, inq = [], False
+    for i, ch in enumerate(t):
+        if ch == '"':
+            inq = not inq
+        elif ch == ' ' and not inq and i > 0 and t[i - 1] != ' ':
+            pos.append(i)
+    return pos
+
+
 def render_pile(prog, width=4, tab=False, ins=None):
     out = ['#pile']
     for i, (d, t) in enumerate(prog):
         if ins and ins[0] == 'before' and ins[1] == i:
             out.append(ins[2])
+        if ins and ins[0] == 'esc' and ins[1] == i:
+            # escaped line break at one blank of the line: `_`, optional trailing blanks, newline, optional blank lines, and a
+            # continuation line at a chosen indentation; all of it is layout
+            _, _, at, cont, nblank, trail = ins
+            t = t[:at] + ' _' + trail + '\n' + '\n' * nblank + ' ' * max(0, width * d + cont) + t[at + 1:]
         line = (('\t' * d) if tab else (' ' * (width * d))) + t
         if ins and ins[0] == 'trail' and ins[1] == i:
             line += ins[2]
@@ -126,6 +141,18 @@ def main(tier):
                 jobs.append((g, '%s@%d' % (name, i), render_pile(prog, ins=('before', i, txt))))
             for name, txt in [('trailsp', '   '), ('trailtab', '\t'), ('trailcom', '  -- c')]:
                 jobs.append((g, '%s@%d' % (name, i), render_pile(prog, ins=('trail', i, txt))))
+            # escaped line breaks inside the line: every blank (quick: first and last) x continuation indentation
+            # {deeper, same, shallower} x following blank lines {0, 1, 2} x blanks after the underscore
+            sp = spaces_outside_strings(prog[i][1])
+            if tier == 'quick' and len(sp) > 2:
+                sp = [sp[0], sp[-1]]
+            for at in sp:
+                for cname, cont in (('deeper', 6), ('same', 0), ('shallower', -2)):
+                    for nblank in (0, 1, 2):
+                        for tname, trail in (('', ''), ('sp', '  ')):
+                            if tier == 'quick' and tname and nblank == 2:
+                                continue
+                            jobs.append((g, 'esc-%s-b%d%s@%d.%d' % (cname, nblank, tname, i, at), render_pile(prog, ins=('esc', i, at, cont, nblank, trail))))
     # braced twin of pile0's first function: same explicit block structure
     chunks = [jobs[i::NCPU * 2] for i in range(NCPU * 2)]
 
@@ -168,7 +195,7 @@ def main(tier):
                       cmds=[' '.join(base + ['-Fap=dev.ap', 'm.as']), ' '.join(base + ['-Fap=ref.ap', 'R0.as']), 'cmp dev.ap ref.ap'])
     ck.cov.update({
         'rule': '%d braced sources x (every single inter-token gap x %d deviations + uniform renderings%s) and %d piled sources x (widths 1-8, tabs, 6 kinds of inserted line before and '
-                '3 kinds of trailing text at every line); -Fap output must be byte-identical to the canonical rendering; distinct = renderings that parsed identically'
+                '3 kinds of trailing text at every line, escaped line breaks at the blanks of every line x continuation indentation x following blank lines); -Fap output must be byte-identical to the canonical rendering; distinct = renderings that parsed identically'
                 % (len(srcs), len(DEVS), ' + all pairs of gaps for 4 deviations' if tier == 'thorough' else '', len(PILE_PROGS)),
         'renderings': len(jobs),
         'samples': [texts[jobs[3][0], jobs[3][1]][:200], render_pile(PILE_PROGS[1], 2)[:200]],
